@@ -344,6 +344,8 @@ class UnrollMixin:
             if s.raised:
                 yield Outcome('raise', s.raised, s)
                 continue
+            if len(s.path) > len(st.path):
+                self._forked = True      # an operand of the test was undecided and was forked
             t = interp.decide(c, s)
             if t is None:
                 self._forked = True
